@@ -218,11 +218,3 @@ def shrink(ctx, f):
 def search(ctx):
     return run(ctx)
 
-
-def replay(ctx, path):
-    import json
-    rp = json.load(open(path))
-    h = rp["failure"]["history"]
-    steps, problems = run_history(h)
-    print(json.dumps({"history": h, "steps": steps, "problems": problems}, indent=1))
-    return 1 if problems else 0
